@@ -44,6 +44,15 @@ public:
 
     unsigned int referenceCount() const;
 
+    /**
+     * @brief Whether the object is still part of the file: it has a hard link and can be reached by a path.
+     *
+     * The name HDF5 remembers for a handle can be stale (a link deleted through another path to the same
+     * group does not invalidate it), and a link held by an object that is itself no longer part of the
+     * file keeps the link count above zero; so both are checked against the file itself.
+     */
+    bool isLinkedInFile() const;
+
     LocID &operator=(const LocID &other) {
         H5Object::operator= (other);
         return *this;
